@@ -127,12 +127,22 @@ func vpH_C09_nil() {
 }
 
 // ids differing in host, path or query are never equal
-func vpH_C09_iddiff() {
+// vpC09IDPair: two ids that name different things, differing in one component
+func vpC09IDPair() (IRI, IRI) {
 	var ida, idb IRI
 	c1, c2 := vpAlnum(), vpAlnum()
 	vpAssume(c1 != c2)
 	s1, s2 := string([]byte{c1}), string([]byte{c2})
-	switch vpChoice(8) {
+	switch vpChoice(11) {
+	case 8: // another URL carried in the query or in the path: what is left of it still counts
+		ida = IRI("https://" + s1 + ".ex/proxy?url=https://r.ex/1.png")
+		idb = IRI("https://" + s2 + ".ex/proxy?url=https://r.ex/1.png")
+	case 9:
+		ida = IRI("https://h.ex/" + s1 + "/https://r.ex/1.png")
+		idb = IRI("https://h.ex/" + s2 + "/https://r.ex/1.png")
+	case 10:
+		ida = IRI("https://h.ex/web?a=" + s1 + "&to=http://r.ex/")
+		idb = IRI("https://h.ex/web?a=" + s2 + "&to=http://r.ex/")
 	case 6: // only the port differs
 		ida = IRI("https://h.ex:80" + s1 + "/p")
 		idb = IRI("https://h.ex:80" + s2 + "/p")
@@ -158,11 +168,43 @@ func vpH_C09_iddiff() {
 		ida = IRI("https://h.ex/p?k=" + string([]byte{c1}))
 		idb = IRI("https://h.ex/p?k=" + string([]byte{c2}))
 	}
+	return ida, idb
+}
+
+func vpH_C09_iddiff() {
+	ida, idb := vpC09IDPair()
 	ti := vpChoice(3)
 	a, b := vpNew(ti), vpNew(ti)
 	vpSetID(a, ida)
 	vpSetID(b, idb)
 	vpAssert("id-differs", !ItemsEqual(a, b) && !ItemsEqual(b, a))
+	vpReach("end")
+}
+
+// the same pairs as plain IRIs: compared directly, as members of lists, and as the one property in
+// which two otherwise equal objects differ
+func vpH_C09_iri_pairs() {
+	ida, idb := vpC09IDPair()
+	switch vpChoice(5) {
+	case 0:
+		vpAssert("iri-pairs/direct", !ItemsEqual(ida, idb) && !ItemsEqual(idb, ida))
+	case 1:
+		vpAssert("iri-pairs/in-item-lists", !ItemsEqual(ItemCollection{ida}, ItemCollection{idb}) && !ItemsEqual(ItemCollection{idb, ida}, ItemCollection{ida, ida}))
+	case 2:
+		vpAssert("iri-pairs/in-iri-lists", !ItemsEqual(IRIs{ida}, IRIs{idb}) && !ItemsEqual(IRIs{idb}, IRIs{ida}))
+	case 3:
+		a := &Object{ID: "https://h.ex/o", Type: NoteType, URL: ida, AttributedTo: ida}
+		b := &Object{ID: "https://h.ex/o", Type: NoteType, URL: idb, AttributedTo: ida}
+		c := &Object{ID: "https://h.ex/o", Type: NoteType, URL: ida, AttributedTo: idb}
+		vpAssert("iri-pairs/url-of-objects", !ItemsEqual(a, b) && !ItemsEqual(b, a))
+		vpAssert("iri-pairs/attributedTo-of-objects", !ItemsEqual(a, c) && !ItemsEqual(c, a))
+	default:
+		a := &Activity{ID: "https://h.ex/o", Type: LikeType, Object: ida, Actor: ida}
+		b := &Activity{ID: "https://h.ex/o", Type: LikeType, Object: idb, Actor: ida}
+		c := &Activity{ID: "https://h.ex/o", Type: LikeType, Object: ida, Actor: idb}
+		vpAssert("iri-pairs/object-of-activities", !ItemsEqual(a, b) && !ItemsEqual(b, a))
+		vpAssert("iri-pairs/actor-of-activities", !ItemsEqual(a, c) && !ItemsEqual(c, a))
+	}
 	vpReach("end")
 }
 
